@@ -4,7 +4,7 @@
    Keys: a chunk whose truncated hash equals the truncated checksum of a descriptor gets that descriptor's key
    (Archive.key_of); any other chunk gets a key beyond the descriptor table that is an injective code of its
    truncated hash, so that different unknown chunks never share a key (the HashMap keeps them apart). *)
-From Bita Require Import Model.Base Model.Chunker Model.ChunkIndex Model.CloneOutput Model.Proto Model.Archive
+From Bita Require Import Model.Base Model.Chunker Model.ChunkIndex Model.CloneOutput Model.CloneSpec Model.Proto Model.Archive
                          Model.CloneArchive.
 
 (* injective code of a byte string *)
@@ -49,5 +49,15 @@ Section CloneBytes.
     match o_err (cr_state r) with
     | Some e => Err e
     | None => Ok (set_len (a_total a) (o_file (cr_state r)))
+    end.
+  (* the same, also reporting the writes made to the output file as (offset, length), in order *)
+  Definition open_and_clone_bytes_w (f prior : list N) (inplace : bool) (seeds : list (list N))
+    : outcome (list (N * N) * list N) :=
+    do a <- try_init H (file_read_at f);
+    do r <- clone_bytes a (file_payload f) prior inplace seeds;
+    match o_err (cr_state r) with
+    | Some e => Err e
+    | None => Ok (map (fun w => (fst w, lenN (snd w))) (writes_of 0 (o_trace (cr_state r))),
+                  set_len (a_total a) (o_file (cr_state r)))
     end.
 End CloneBytes.
